@@ -26,6 +26,8 @@ from .. import mainmodel as M
 from .. import fresh as F
 from ..compdb import AnalysisBroken
 
+from .common import append_data_args
+
 LEVEL = "other"
 
 # HDF5 path -> accessor that must feed it (the file format is the public interface; confirmed by reading)
@@ -215,7 +217,7 @@ def run(chk, prog):
             continue
         for x in A.walk(f["body"]):
             if (x.get("callee") or "").startswith("vfps::HDF5File::_appendData"):
-                m_ = A.this_field(x["args"][0])
+                m_ = A.this_field(append_data_args(x)[0]) if append_data_args(x)[0] is not None else None
                 appends.setdefault(m_, []).append((f, x))
     for m_ in sorted(timeidx):
         sites = appends.get(m_, [])
@@ -232,7 +234,9 @@ def run(chk, prog):
         if want is None:
             continue
         for f, x in sites:
-            src = x["args"][1]
+            src = append_data_args(x)[1]
+            if src is None:
+                raise AnalysisBroken("HDF5File::_appendData call without a data pointer argument at line %d" % x["line"])
             calls = [y for y in A.walk(src) if y.get("k") == "CXXMemberCallExpr" and (y.get("callee") or "").startswith("vfps::") and "HDF5File" not in y["callee"]]
             # local holding the accessor result (auto mean_q = ps.getMoment(0,0))
             d = A.declref(A.strip(A.call_object(A.strip(src))) if A.strip(src).get("k") == "CXXMemberCallExpr" and A.call_object(A.strip(src)) is not None else src)
@@ -345,7 +349,7 @@ def run(chk, prog):
         rec = ds_dims.get(m_, [None])[1:]
         want = src_shape[acc_name]
         for f, x in sites:
-            src = A.strip(x["args"][1])
+            src = A.strip(append_data_args(x)[1]) if append_data_args(x)[1] is not None else {}
             direct = any(y.get("k") == "CXXMemberCallExpr" and y.get("callee") == acc_name for y in A.walk(src))
             # accessor result held in a local (auto mean_q = ps.getMoment(0,0)) is still the array itself
             dl = A.declref(A.strip(A.call_object(src))) if src.get("k") == "CXXMemberCallExpr" and A.call_object(src) is not None else None
@@ -397,7 +401,7 @@ def run(chk, prog):
     for x in A.walk(ap["body"]):
         if (x.get("callee") or "").startswith("vfps::HDF5File::_appendData"):
             enc = A.enclosing(aidx, x, {"IfStmt"})
-            bybranch.setdefault(enc[0]["id"] if enc else None, []).append(A.this_field(x["args"][0]))
+            bybranch.setdefault(enc[0]["id"] if enc else None, []).append(A.this_field(append_data_args(x)[0]) if append_data_args(x)[0] is not None else None)
     groups = sorted(bybranch.values(), key=len)
     ok = len(groups) == 2 and set(groups[0]) == {"_timeAxisPS", "_phaseSpace"} and "_timeAxis" in groups[1] and len(groups[1]) == 8
     chk.check(ok, "R3", ap.where, "append(PhaseSpace): {time of phase space, phase space} and {time, 7 per-record datasets} are each written in one branch (%s)" % groups,
@@ -405,7 +409,8 @@ def run(chk, prog):
     for br in groups:
         taxis = [m_ for m_ in br if "timeAxis" in m_]
         chk.check(len(taxis) == 1, "R3", ap.where, "each branch writes exactly one time value (%s)" % taxis, "append(PhaseSpace):time-per-branch:%s" % taxis)
-    tvals = [A.show(x["args"][1]).replace(" ", "") for x in A.walk(ap["body"]) if (x.get("callee") or "").startswith("vfps::HDF5File::_appendData") and "timeAxis" in (A.this_field(x["args"][0]) or "")]
+    tvals = [A.show(append_data_args(x)[1]).replace(" ", "") for x in A.walk(ap["body"]) if (x.get("callee") or "").startswith("vfps::HDF5File::_appendData") and
+             append_data_args(x)[0] is not None and append_data_args(x)[1] is not None and "timeAxis" in (A.this_field(append_data_args(x)[0]) or "")]
     chk.check(tvals and all(t == "&t" for t in tvals), "R3", ap.where, "the time written is the call's time parameter", "append(PhaseSpace):time-value:%s" % tvals)
     # axis agreement in the constructor
     body = hc["body"]
